@@ -74,7 +74,7 @@ func (t *topicsState) Set(message *packet.Publish) error {
 	defer t.mu.Unlock()
 	msg := &api.RetainedMessage{
 		Publish:   message,
-		LastAdded: clock(),
+		LastAdded: nextTimestamp(t.lastUpdate(message.Topic)),
 	}
 	err := t.set(message.Topic, msg)
 	if err != nil {
@@ -103,6 +103,15 @@ func (t *topicsState) set(topic []byte, msg *api.RetainedMessage) error {
 	return nil
 }
 
+// lastUpdate returns the timestamp of the newest known update of topic (0 when there is none).
+func (t *topicsState) lastUpdate(topic []byte) int64 {
+	local, err := t.get(topic)
+	if err != nil || len(local) != 1 {
+		return 0
+	}
+	return crdt.GetLastEntryUpdate(local[0])
+}
+
 func (t *topicsState) Delete(topic []byte) error {
 	t.mu.Lock()
 	defer t.mu.Unlock()
@@ -112,7 +121,7 @@ func (t *topicsState) Delete(topic []byte) error {
 			Topic:   topic,
 			Payload: nil,
 		},
-		LastDeleted: clock(),
+		LastDeleted: nextTimestamp(t.lastUpdate(topic)),
 	}
 	err := t.set(topic, msg)
 	if err != nil {
